@@ -58,6 +58,56 @@ def _adaptor_shard(shard, n, tier, seed):
     w.close()
     return rep
 
+# values under construction around a caught error: a function that recovers from an error is called while strings and
+# sequences are being built by its caller (and throws while it builds strings / sequences itself)
+BUILD_CONTEXTS = ["X", "'a{X}b'", "[1, X, 3]", "(1, X)", "{k: X}", "'p{[1, X]}q'", "['s{X}t', 2]", "'o{\"i{X}j\"}u'", "g_(1, X)", "'{X}{X}'", "[X, 'm{X}n', (X,)]",
+                  "'a{'b{'c{X}'}'}'" if False else "'a{[1, 'c{X}']}z'", "[[['d{X}']]]", "(1, 2, 'x{(3, X)}y', [4])", "'{1}{2}{X}{3}'", "[1, 2, 3, 4, X]", "'s{g_(X, 't{X}')}'"]
+THROWING_BODIES = ["throw 'x'", "'s{throw 'x'}'", "[1, throw 'x']", "'a{[1, (2, throw 'x')]}'", "[1, 'b{throw 'x'}']", "h_()", "'c{h_()}'", "[h_(), 1]", "('q{[1, h_()]}',)", "[1, 2][5]", "'{[1][3]}'"]
+def _builder_shard(shard, n, tier, seed):
+    w = Worker()
+    rep = {"violations": [], "evaluations": 0, "cells": 0, "distinct": 0, "samples": [], "passenger": []}
+    idx = 0
+    for ci, ctx in enumerate(BUILD_CONTEXTS):
+        for bi, body in enumerate(THROWING_BODIES):
+            for where in ("function", "inline", "method", "nested-try"):
+                idx += 1
+                if idx % n != shard:
+                    continue
+                pre = "g_ = |a, b| (a, b)\nh_ = || throw 'deep'\n"
+                if where == "function":
+                    pre += "safe_ = ||\n  try\n    %s\n  catch e\n    'rec'\n" % body
+                    x = "safe_()"
+                elif where == "method":
+                    pre += "o_ =\n  safe: ||\n    try\n      %s\n    catch e\n      'rec'\n" % body
+                    x = "o_.safe()"
+                elif where == "nested-try":
+                    pre += "safe_ = ||\n  try\n    try\n      %s\n    catch e: Number\n      'wrong'\n    catch e2\n      throw e2\n  catch e\n    'rec'\n" % body
+                    x = "safe_()"
+                else:
+                    pre += "safe_ = |f| f()\n"
+                    x = "(try\n  %s\ncatch e\n  'rec')" % body
+                    continue_inline = "\n" in x
+                    if continue_inline:
+                        # an inline try needs its own lines: bind it through a callback instead
+                        pre += "t_ = ||\n  try\n    %s\n  catch e\n    'rec'\n" % body
+                        x = "safe_(t_)"
+                real = pre + "r = %s\nprint r\nprint 'after'\n" % ctx.replace("X", x)
+                ref = pre + "r = %s\nprint r\nprint 'after'\n" % ctx.replace("X", "'rec'")
+                a = w.exec(real, timeout=20, limit_ms=3000)
+                b = w.exec(ref, timeout=20, limit_ms=3000)
+                rep["evaluations"] += 2; rep["cells"] += 1; rep["distinct"] += 1
+                c01._passengers(rep, a, real)
+                va = (a.get("outcome"), a.get("stdout")); vb = (b.get("outcome"), b.get("stdout"))
+                if vb[0] != "ok":
+                    rep["violations"].append({"key": "builder-context-harness:%d" % ci, "summary": "harness: the reference program of a builder context does not run: %s" % str(b.get("error"))[:100], "case": {"src": ref}})
+                elif va != vb:
+                    rep["violations"].append({"key": "builder-context:%d:%d:%s" % (ci, bi, where), "summary": "a caught error disturbed the values under construction around it: `%s` with a recovering call (%s, body `%s`) gives %s %r (%s), with the recovered value written out %r"
+                                              % (ctx, where, body, va[0], (va[1] or "")[:80], str(a.get("error"))[:80].replace("\n", " "), (vb[1] or "")[:80]), "case": {"src": real, "reference": ref, "real": va, "expected": vb}})
+                if not rep["samples"] and ci == 5 and bi == 3:
+                    rep["samples"].append({"program": real})
+    w.close()
+    return rep
+
 def run(tier, seed):
     chk = Check(PID, tier, seed)
     if not chk.build():
@@ -75,6 +125,7 @@ def run(tier, seed):
             continue
         st["cells"] += sh["cells"]
     cov["streams"]["adaptor-fault-grid"] = st
+    c01.fold(chk, cov, "builder-contexts", fan_out(_builder_shard, tier=tier, seed=seed))
     cov["evaluations"] += st["cells"]
     cov["distinct_nontrivial"] += st["cells"]
     cov["passenger_observations"] = cov["passenger_observations"][:30]
@@ -83,7 +134,7 @@ def run(tier, seed):
                    "callbacks, inside generator bodies consumed by for / to_list, inside string interpolation; fault kinds: throw string, throw object with "
                    "@type/@display, bad index, type mismatch, failed assert / assert_eq, too few / too many arguments; state lists record progress before / after "
                    "the fault and in finally; uncaught faults end the program. Model vs real in three contexts; residue, VM-monitor faults and panics are "
-                   "violations here. distinct = distinct program texts that printed at least one line.")
+                   "violations here. Builder contexts: a call that recovers from an error (function, method, nested try, callback) placed inside 17 string / list / tuple / map / call constructions under way, the callee throwing in 11 ways while it builds strings and sequences itself - output identical to the same construction with the recovered value written out. distinct = distinct program texts that printed at least one line.")
     return chk.finish(cov, assumptions=["reference model of exception semantics (calibrated: 0 residual disagreements on 6 000 err-profile programs of the repaired tree)",
                                          "shape guards for the recorded defects: no control flow leaves a try/catch that has a finally and its handlers cannot fail (F-B1), "
                                          "call results inside try go to fresh names (F-B2), no map-pattern catch (F-B5), errors crossing a generator boundary are caught "
